@@ -18,6 +18,20 @@ unknown name, -s/--follow-sub, -a/--all, --disable-default/--enable-default), ea
     run; ignore T; <T made not up-to-date>; reset-dep [T | no argument]; run; forget T; run  for each of the four ways a task
     is not up-to-date (never executed, a file_dep changed, a target missing, an uptodate item false), for a group (all three
     of its tasks processed at once) and -- the documented exception -- under a changed checker.
+    ROUND F -- the commands that only look.  "Until forgotten" quantifies over everything a user does between `ignore T` and a
+    later run that is not `forget`: steps may also be `list [--all] [-s|--status] [--deps] [--sort definition] [names]`,
+    `info [--no-status] name`, `clean [-n|--dry-run] [-c] names` (never --forget; no task has clean actions), and EVERY command of
+    a history (the three of the statement too) and every run may be given its own `--check_file_uptodate md5|timestamp` on the
+    command line -- the checker of that process only, possibly not the one that wrote the records nor the one of the next run
+    (step['ck'], run['ck']; `checker` mutations change the configured one).  13 fixed histories per backend (inspect_fixed_specs:
+    run; ignore T; T made not up-to-date; list / info / clean under either checker; run; forget T; run -- T a task with
+    dependents, a group, a setup-task; a record holding only the mark; refused arguments) + random ones (gen_inspect_steps).
+    Each command is a process of its own for doit; here they share one, so what the end of a process does to a dependency
+    manager that was never closed (list, info) is done by `end_of_process`.
+    Model: Model/Inspect.v (list_step / info_step = Introspect.list_cmd / info_cmd of C20 as a history step with the DB ON DISK
+    afterwards: a record get_status dropped in memory is gone from a dbm file only; clean_step: nothing), then Commands.next_run.
+    Oracle: nothing new -- `update_held` / `ignore_oracle` below never mention which command ran: whatever it was, if it was not a
+    `forget` covering T, T keeps the mark and is skipped, with its dependents, by every later run.
 Model side (inside Coq): Commands.forget / ignore_cmd / resetdep_cmd on the task table READ FROM THE
 REAL Task OBJECTS the loader returned (name, task_dep, setup_tasks, calc_dep, subtask_of, file_dep,
 targets; uptodate items come from the spec), then Commands.next_run (Runner.run_serial with the selection and
@@ -30,7 +44,8 @@ must have the mask of the --continue model run, and the exit code must be the mo
 Encoding (Commands.observe_cmd; both sides the same list of ints):
   [outcome: 0 ok | 1 message only | 100+id "'id' is not a task." | 97 KeyError | 98 other exception]
   ++ [task id; code]* one pair per line written ("forgetting/ignoring X": code 0; reset-dep: 0 failed,
-     1 skip, 2 processed)
+     1 skip, 2 processed; list: one pair per task line, code = letter 0 none | 1 I | 2 U | 3 R | 4 E; info: one pair,
+     code = -1 no status | 0 up-to-date | 1 run | 2 error | 3 ignored; info with not exactly one name: outcome 1)
   ++ [-7] ++ per task (table order, then the stale one) the record as History.rec_z:
      [0] | [1; mask(deps) or -1; len(deps) or -1; checker 0/1/2; result id or -1; ignore] ++ 4 ints per
      file (0,0,0,0 | 1,mtime,size,digest id | 2,mtime,0,0) ++ one int per value key (-2 absent, -1 None, n)
@@ -52,8 +67,10 @@ import hashlib, io, json, os, sys
 import common
 from common import Outcome
 
-PRE = ('From DoitV Require Import Base Status History Commands.\nOpen Scope Z_scope.\n'
-       'Definition md5o (c : N) : N := c.\n')
+PRE = ('From DoitV Require Import Base Status History Commands Inspect.\nFrom DoitV Require Introspect.\nOpen Scope Z_scope.\n'
+       'Definition md5o (c : N) : N := c.\n'
+       'Definition LO (a s dd sn : bool) (pos : list name) : Introspect.lopts := {| Introspect.o_subtasks := a; Introspect.o_status := s; '
+       'Introspect.o_private := false; Introspect.o_list_deps := dd; Introspect.o_sort_name := sn; Introspect.o_pos := pos |}.\n')
 BASE = 1600000000
 CONTENT = {0: b'aaaa', 1: b'bbbb', 2: b'cc', 3: b'dddd', 4: b''}
 DIGEST = {hashlib.md5(b).hexdigest(): c for c, b in CONTENT.items()}
@@ -66,6 +83,11 @@ CK_CLS = {'md5': 'MD5Checker', 'timestamp': 'TimestampChecker'}
 CK_Z = {'MD5Checker': 1, 'TimestampChecker': 2, None: 0}
 UNKNOWN = {'zz': 50, 'a:nope': 51}
 BACKENDS = ['json', 'dbm', 'sqlite3']
+BACKEND_COQ = {'json': 'Introspect.BJson', 'dbm': 'Introspect.BDbm', 'sqlite3': 'Introspect.BSqlite'}
+INSPECT = ('list', 'info', 'clean')          # commands that only look at the tasks (clean: without --forget, no clean actions)
+CK_COQ = {'md5': 'MD5', 'timestamp': 'TS'}
+LETTER_Z = {'I': 1, 'U': 2, 'R': 3, 'E': 4}
+ISTATUS_Z = {'up-to-date': 0, 'run': 1, 'error': 2, 'ignored': 3}
 
 
 def mask(xs):
@@ -133,6 +155,45 @@ def all_tasks(spec):
     return out
 
 
+def _no_conv(data):
+    return data
+
+
+def cache_entry_points():
+    """Every doit command object asks importlib.metadata.entry_points(group=...) for plugins (doit/plugin.py): a scan of the
+    metadata of every installed distribution, ~18 ms per command -- more than most commands of these histories take.  The set of
+    installed distributions does not change during a check: the answers are memoised per group (an environment oracle, not doit
+    code; same device as harness/c20.py, and the same memo when both are loaded)"""
+    import importlib.metadata as M
+    if getattr(M.entry_points, '_c20_memo', None) is not None:
+        return
+    real, memo = M.entry_points, {}
+
+    def entry_points(**params):
+        k = tuple(sorted(params.items()))
+        if k not in memo:
+            memo[k] = real(**params)
+        return memo[k]
+    entry_points._c20_memo = memo
+    M.entry_points = entry_points
+
+
+def end_of_process(backend, unclosed=True):
+    """every command of a history is a process of its own; here they share one.  What the end of the process does to a DB object
+    that was never closed (list / info): it is dropped.  SqliteDB registers a converter closure (holding the SqliteDB, so its
+    connection) in the sqlite3 module, and doit.globals.Globals.dep_manager keeps the Dependency: in-process the connection of the
+    previous command would stay open -- with its uncommitted DELETE and the lock on the file -- until the next command replaces
+    both (same device as harness/c20.py)"""
+    from doit.globals import Globals
+    Globals.dep_manager = None                 # the singleton keeps the dependency manager of the last command
+    if backend == 'sqlite3':
+        import sqlite3
+        sqlite3.register_converter('json', _no_conv)
+    if unclosed:                               # list / info never close the manager, nor does a command that died: the objects
+        import gc                              # of the command (cycles) keep it until collected
+        gc.collect()
+
+
 class World:
     def __init__(self, ctx, spec, tag):
         self.dir = ctx.subdir('w')             # one directory: the path strings are the same in every case
@@ -144,6 +205,7 @@ class World:
         self.clock = 1
         self.fsview = {}
         self.ck = spec['pre']['ck']
+        self.eck = self.ck                      # the checker of the command being judged (its own --check_file_uptodate, or the configured one)
         self.defs = {n: (dict(t) if t is not None else None) for n, p, t in all_tasks(spec)}
         self.fail = set()
         self.with_old = False
@@ -246,15 +308,20 @@ class World:
         ns['DOIT_CONFIG'] = cfg
         return ns
 
-    def doit(self, cmd, rest, cli_db=False):
-        """one real command line; -> (rc, stdout, stderr, actions executed, reporter events)"""
+    def doit(self, cmd, rest, cli_db=False, ck=None):
+        """one real command line; -> (rc, stdout, stderr, actions executed, reporter events).  [ck]: the file checker given
+        to THIS command with --check_file_uptodate (None: the configured one)"""
         from doit.doit_cmd import DoitMain
         from doit.cmd_base import ModuleTaskLoader
         args = [cmd]
         if cli_db:
-            args += ['--db-file', self.dbpath, '--backend', self.backend, '--check_file_uptodate', self.ck]
+            args += ['--db-file', self.dbpath, '--backend', self.backend, '--check_file_uptodate', ck or self.ck]
+        elif ck:
+            args += ['--check_file_uptodate', ck]
         args += rest
         del LOG[:], EV[:]
+        cache_entry_points()
+        rc = 98
         o, e = io.StringIO(), io.StringIO()
         so, se = sys.stdout, sys.stderr
         sys.stdout, sys.stderr = o, e
@@ -266,6 +333,7 @@ class World:
                 e.write('escaped: %r' % (ex,))
         finally:
             sys.stdout, sys.stderr = so, se
+            end_of_process(self.backend, unclosed=cmd in INSPECT or rc not in (None, 0, 1, 2))
         return rc, o.getvalue(), e.getvalue(), list(LOG), list(EV)
 
     # ---- the task table, read from the real objects
@@ -434,7 +502,20 @@ def model_cmd(step, ids, default):
         return 'ignore_cmd @TB@ %s @DB@' % args
     if step['cmd'] == 'none':
         return 'no_cmd @DB@'
+    if step['cmd'] == 'list':
+        return 'list_step md5o current @LT@ @BK@ @TB@ (LO %s %s %s %s %s) @CK@ @FS@ @DB@' % (
+            *('true' if a[k] else 'false' for k in ('sub', 'status', 'deps', 'sort_name')), args)
+    if step['cmd'] == 'info':
+        return 'info_step md5o current @BK@ @TB@ %s %s @CK@ @FS@ @DB@' % (args, 'true' if a['hide'] else 'false')
+    if step['cmd'] == 'clean':
+        return 'clean_step @DB@'
     return 'resetdep_cmd md5o current @CK@ @FS@ @TB@ %s @DB@' % args
+
+
+def rank_coq(order, ids):
+    """the oracle name_ltb of Model/Inspect.v: Python's `<` on the task names (sorted(print_list))"""
+    arms = ' '.join('| %d%%N => %d%%N' % (ids[n], i) for i, n in enumerate(sorted(order)))
+    return '(fun a b : name => let rk := fun x : name => match x with %s | _ => 99%%N end in N.ltb (rk a) (rk b))' % arms
 
 
 # ------------------------------------------------------------------ parsing what the command wrote
@@ -453,7 +534,36 @@ def parse_lines(cmd, out, ids):
     return pairs
 
 
-def outcome_code(rc, out, err, ids):
+def parse_inspect(step, out, ids):
+    """what `list` / `info` wrote, as the pairs of Inspect.list_step / info_step: list: one pair per task line
+    [task; letter 0 none | 1 I | 2 U | 3 R | 4 E]; info: [task; -1 hidden | 0 up-to-date | 1 run | 2 error | 3 ignored]"""
+    cmd, a = step['cmd'], step['margs']
+    pairs = []
+    if cmd == 'list':
+        for line in out.split('\n'):
+            if line.startswith(' -  ') or not line.strip():
+                continue
+            w = line.split()
+            if a['status']:
+                pairs += [ids.get(w[1], 90) if len(w) > 1 else 90, LETTER_Z.get(w[0], 76)]
+            else:
+                pairs += [ids.get(w[0], 90), 0]
+    elif cmd == 'info' and len(a['names']) == 1:
+        st = -1
+        for line in out.split('\n'):
+            w = line.split(':', 1)
+            if len(w) == 2 and w[0].strip() == 'status' and line.startswith('status'):
+                st = ISTATUS_Z.get(w[1].strip(), 75)
+                break
+        pairs += [ids.get(a['names'][0], 90), st]
+    return pairs
+
+
+def outcome_code(rc, out, err, ids, cmd=None):
+    if rc in (None, 0, 1) and cmd in INSPECT:       # `info` returns 1 when the task is not up-to-date
+        return 0
+    if cmd == 'info' and 'must select *one* task' in err:
+        return 1
     if rc in (None, 0):
         if 'no tasks specified' in out or 'You cant ignore all tasks' in out:
             return 1
@@ -512,7 +622,7 @@ def item_evaluated(u):
 
 def run_opts(step):
     """options of the run that follows a step (older payloads have none: --continue, all top-level tasks)"""
-    r = dict(flags=['--continue'], always=False, cont=True, par=False, sel=None)
+    r = dict(flags=['--continue'], always=False, cont=True, par=False, sel=None, ck=None)
     r.update(step.get('run') or {})
     return r
 
@@ -576,7 +686,7 @@ def verdicts(lines):
 def mark_kept_by_resetdep(w, b):
     """does a record [b] (dump before the command) keep its ignore mark when reset-dep processes the task?  yes when the
     checker recorded in it is the configured one or when no checker is recorded (0: the record holds only the mark)"""
-    return b is not None and b['ck'] in (0, 1 if w.ck == 'md5' else 2)
+    return b is not None and b['ck'] in (0, 1 if w.eck == 'md5' else 2)
 
 
 def oracle(out, w, spec, step, names, stale, before, after, code, lines, acts, follow, run_table, dangling, case, ro=None, frc=0, rsel=()):
@@ -598,6 +708,10 @@ def oracle(out, w, spec, step, names, stale, before, after, code, lines, acts, f
     if cmd == 'none':
         if not unchanged:
             viol('two runs in a row: the DB changed in between', 'no-command-db-changed')
+        return
+    if cmd in INSPECT:
+        # a command that only looks: it is not `forget` -- what the statement says about it ("until forgotten") is judged by
+        # update_held (the mark of every task ignored and not forgotten is still there) and ignore_oracle (the runs that follow)
         return
     if cmd == 'forget':
         form_no_default = (not a['names'] and spec['default'] is None and not a['all'] and not a['dd'])
@@ -682,11 +796,11 @@ def oracle(out, w, spec, step, names, stale, before, after, code, lines, acts, f
                     return
                 continue
             r, b = after[n], before[n]
-            ckz = 1 if w.ck == 'md5' else 2
+            ckz = 1 if w.eck == 'md5' else 2
             want_saved = {}
             for f in d['file_dep']:
                 m, s, c = w.fsview[f]
-                want_saved[f] = ['md5', m, s, c] if w.ck == 'md5' else ['ts', m]
+                want_saved[f] = ['md5', m, s, c] if w.eck == 'md5' else ['ts', m]
             keep = mark_kept_by_resetdep(w, b)
             if keep and b['ignore'] and not (r and r['ignore']):
                 viol('reset-dep processed the ignored task %s (record written by the configured checker, or holding only the mark) and the '
@@ -698,7 +812,9 @@ def oracle(out, w, spec, step, names, stale, before, after, code, lines, acts, f
                     or r['ignore'] != (b['ignore'] if keep else False)):
                 viol('reset-dep processed %s but the record is not (state of the present files, old values/result)' % n, 'resetdep-wrong-record')
                 return
-        if follow is not None and not ro['always']:
+        # "is up-to-date" is said of a run under the checker reset-dep recorded the state with: a run given another
+        # --check_file_uptodate discards that state (the documented effect of changing the checker)
+        if follow is not None and not ro['always'] and (ro['ck'] or w.ck) == w.eck:
             for n in sorted(reset_ok):
                 if follow[n] & 1 and not excused_reset(w, n, after):
                     viol('task %s was executed by the run right after its reset-dep (all file deps present)' % n, 'resetdep-task-executed')
@@ -712,6 +828,11 @@ def update_held(out, held, w, spec, step, names, stale, before, after, code, lin
     dropped as a whole; see the module text).  Every task of the set must still carry the mark.  -> what happened, for counting"""
     cmd, a = step['cmd'], step['margs']
     seen = []
+    for n in sorted(held):                     # [before] is what the run after the previous step left
+        if not (before.get(n) and before[n]['ignore']):
+            out.violations.append(dict(what='task %s was ignored and never forgotten, but the run after the previous step (or the changes made to '
+                                            'files / definitions since) took its ignore mark away' % n, shape='ignore-mark-lost-in-a-run', case=case))
+            held.discard(n)                    # reported once
     if code == 0:
         if cmd == 'ignore' and a['names'] and all(n in names for n in a['names']):
             for n in a['names']:
@@ -731,8 +852,9 @@ def update_held(out, held, w, spec, step, names, stale, before, after, code, lin
                         held.discard(n)
     for n in sorted(held):
         if not (after.get(n) and after[n]['ignore']):
-            out.violations.append(dict(what='task %s was ignored and never forgotten, but after `%s %s` its ignore mark is gone'
-                                            % (n, cmd, ' '.join(cmd_args(step))), shape='ignore-mark-lost-before-forget', case=case))
+            out.violations.append(dict(what='task %s was ignored and never forgotten, but after `%s %s`%s its ignore mark is gone'
+                                            % (n, cmd, ' '.join(cmd_args(step)), ' (--check_file_uptodate %s)' % step['ck'] if step.get('ck') else ''),
+                                       shape='ignore-mark-lost-by-inspection-command' if cmd in INSPECT else 'ignore-mark-lost-before-forget', case=case))
             break
     return seen
 
@@ -859,51 +981,63 @@ def run_case(ctx, out, spec, idx, cases):
             ids_all['old'] = len(order)
         dangling = any(x not in ids for n in order for x in cmd_table[n]['task_dep'] + cmd_table[n]['setup'])
         before = w.dump(allrec)
+        w.eck = step.get('ck') or w.ck
         if step['cmd'] == 'none':
             rc, so, se, acts = 0, '', '', []
         else:
-            rc, so, se, acts, _ = w.doit(step['cmd'], cmd_args(step), cli_db=spec['cli_db'])
-        code = outcome_code(rc, so, se, ids)
-        lines = parse_lines(step['cmd'], so, ids_all)
+            rc, so, se, acts, _ = w.doit(step['cmd'], cmd_args(step), cli_db=spec['cli_db'], ck=step.get('ck'))
+        code = outcome_code(rc, so, se, ids, step['cmd'])
+        if step['cmd'] in INSPECT:
+            lines = parse_inspect(step, so, ids_all) if code == 0 else []
+        else:
+            lines = parse_lines(step['cmd'], so, ids_all)
         after = w.dump(allrec)
         follow, frc = None, None
         top = [n for n in order if cmd_table[n]['subtask_of'] is None]
         ro = run_opts(step)
         sel = [n for n in (ro['sel'] or top) if n in ids] or top
         if step['follow'] and run_table is not None:
-            frc, _, fse, _, ev = w.doit('run', list(ro['flags']) + sel, cli_db=spec['cli_db'])
+            frc, _, fse, _, ev = w.doit('run', list(ro['flags']) + sel, cli_db=spec['cli_db'], ck=ro['ck'])
             follow = outcomes(ev, allrec)
             if frc not in (0, 1, 2):
                 frc = 98
         expected = [code] + lines + [-7]
         for n in allrec:
             expected += rec_ints(after[n])
-        defs_txt = ('Definition @TB@ := %s.\nDefinition @DB@ := %s.\nDefinition @FS@ := %s.\nDefinition @CK@ := %s.\n' % (
-            table_coq(order, cmd_table, w.defs, ids), db_coq(before, ids_all), fs_coq(w.fsview), 'MD5' if w.ck == 'md5' else 'TS'))
+        defs_txt = ('Definition @TB@ := %s.\nDefinition @DB@ := %s.\nDefinition @FS@ := %s.\nDefinition @CK@ := %s.\nDefinition @CKR@ := %s.\n' % (
+            table_coq(order, cmd_table, w.defs, ids), db_coq(before, ids_all), fs_coq(w.fsview), CK_COQ[w.eck], CK_COQ[ro['ck'] or w.ck]))
+        if step['cmd'] == 'list':
+            defs_txt += 'Definition @LT@ := %s.\n' % rank_coq(order, ids)
         tasks_l, files_l = nl(ids_all[n] for n in allrec), nl(FILES)
         if follow is not None:
             expected += [-7] + [follow[n] for n in allrec] + [frc]
             defs_txt += 'Definition @RT@ := %s.\n' % table_coq(order, run_table, w.defs, ids)
-            expr = 'observe_cmd md5o %s %s @CK@ @FS@ @RT@ %s %s %s [%s] (%s)' % (
+            expr = 'observe_cmd md5o %s %s @CKR@ @FS@ @RT@ %s %s %s [%s] (%s)' % (
                 tasks_l, files_l, nl(ids[n] for n in sel), 'true' if ro['cont'] else 'false', 'true' if ro['always'] else 'false',
                 '; '.join(str(follow[n]) for n in allrec), model_cmd(step, ids, spec['default']))
         else:
             expr = 'observe_db %s %s (%s)' % (tasks_l, files_l, model_cmd(step, ids, spec['default']))
         tag = '_%d_%d' % (idx, si)
-        for nm in ('TB', 'DB', 'FS', 'CK', 'RT'):
+        expr = expr.replace('@BK@', BACKEND_COQ[spec['backend']])
+        for nm in ('TB', 'DB', 'FS', 'CK', 'CKR', 'RT', 'LT'):
             defs_txt = defs_txt.replace('@%s@' % nm, nm + tag)
             expr = expr.replace('@%s@' % nm, nm + tag)
         case = dict(spec=spec, step=si)
         cases.append(dict(model=expr, expected=expected, defs=defs_txt,
-                          desc=dict(case=idx, step=si, cmd=step['cmd'], args=cmd_args(step), backend=spec['backend'],
+                          desc=dict(case=idx, step=si, cmd=step['cmd'], args=cmd_args(step), backend=spec['backend'], cmd_checker=w.eck,
                                     default_tasks=spec['default'], order=order,
                                     next_run=(list(ro['flags']) + sel) if follow is not None else None)))
         oracle(out, w, spec, step, order, stale, before, after, code, lines, acts, follow, run_table, dangling, case, ro, frc, sel)
         seen = update_held(out, held, w, spec, step, order, stale, before, after, code, lines, case)
         ignore_oracle(out, w, run_table, after, follow, order, case, held)
+        held -= {n for n in held if not (after.get(n) and after[n]['ignore'])}      # a lost mark was reported above: once per history
         changed = sorted(n for n in allrec if after[n] != before[n])
+        ckz = CK_Z[CK_CLS[w.eck]]
         summ.append(dict(cmd=step['cmd'], args=cmd_args(step), code=code, changed=changed, follow=follow, rc=frc, dangling=dangling,
-                         ntasks=len(order), default=spec['default'], run=ro, run_args=list(ro['flags']) + sel,
+                         ntasks=len(order), default=spec['default'], run=ro, run_args=list(ro['flags']) + sel, backend=spec['backend'],
+                         ck=step.get('ck'), config_ck=w.ck, lines=lines,
+                         # a task ignored and not forgotten whose record was written by another checker than this command's
+                         held_foreign=sorted(n for n in held if before.get(n) and before[n]['ck'] not in (0, ckz)),
                          marked=sorted(n for n in order if after[n] and after[n]['ignore']), held=sorted(held), seen=seen))
     return summ
 
@@ -983,6 +1117,9 @@ def gen_spec(rng, kind=None):
     spec['files'] = {str(f): c for f, c in files.items()}
     real = [n for n, p, t in all_tasks(spec) if t is not None]
     spec['pre'] = dict(fail=[n for n in real if rng.random() < 0.12], ck=rng.choice(['md5', 'md5', 'timestamp']))
+    if kind == 'inspect':
+        spec['steps'] = gen_inspect_steps(rng, spec, names, real)
+        return spec
     nsteps = rng.choice([1, 1, 2, 2, 3])
     iuf = None
     if kind == 'ignore-until-forget':
@@ -1059,8 +1196,8 @@ def gen_step(rng, cmd, names, mut, prev=()):
                 run=gen_run(rng, names))
 
 
-def R(always=False, cont=True, par=False, sel=None, long=False):
-    """options of a `doit run`"""
+def R(always=False, cont=True, par=False, sel=None, long=False, ck=None):
+    """options of a `doit run`; [ck]: its own --check_file_uptodate (None: the configured checker)"""
     flags = []
     if always:
         flags.append('--always-execute' if long else '-a')
@@ -1068,7 +1205,7 @@ def R(always=False, cont=True, par=False, sel=None, long=False):
         flags.append('--continue' if long or not always else '-c')
     if par:
         flags += ['-n', '2', '-P', 'thread']
-    return dict(flags=flags, always=always, cont=cont, par=par, sel=None if sel is None else list(sel))
+    return dict(flags=flags, always=always, cont=cont, par=par, sel=None if sel is None else list(sel), ck=ck)
 
 
 def gen_run(rng, names):
@@ -1087,23 +1224,154 @@ def T(**kw):
     return t
 
 
+def base(default, steps, backend='json', stale=True, fail=(), csetup=('s',)):
+    return dict(backend=backend, stale=stale, cli_db=False, default=default,
+                creators=[dict(kind='plain', name='a', task=T(task_dep=['b'], file_dep=[0], ret=('dict', 0, 3))),
+                          dict(kind='group', name='g', subs=[dict(name='x', task=T(file_dep=[1], uptodate=[['run_once']])),
+                                                              dict(name='y', task=T(task_dep=['b'], targets=[4]))]),
+                          dict(kind='plain', name='c', task=T(setup=list(csetup), file_dep=[2], ret=('str', 1))),
+                          dict(kind='plain', name='b', task=T(file_dep=[0, 1], uptodate=[['config', 1]])),
+                          dict(kind='plain', name='s', task=T(file_dep=[3], uptodate=[['bool', True]])),
+                          dict(kind='plain', name='d', task=T())],
+                files={'0': 0, '1': 1, '2': 2, '3': 3, '4': 0}, pre=dict(fail=list(fail), ck='md5'), steps=steps)
+
+
+
+def st(cmd, names=(), flags=(), mut=(), follow=True, run=None, ck=None, **kw):
+    a = dict(names=list(names), sub=False, dd=False, all=False)
+    a.update(kw)
+    return dict(mut=[list(m) for m in mut], cmd=cmd, flags=list(flags), margs=a, follow=follow, run=run or R(), ck=ck)
+
+
+# ------------------------------------------------------------------ commands that only look, between `ignore` and the later runs
+def other_ck(ck):
+    return 'timestamp' if ck == 'md5' else 'md5'
+
+
+def st_list(names=(), status=True, all_=False, deps=False, sort_name=True, long=False, **kw):
+    """`doit list [--all] [-s|--status] [--deps] [--sort definition] [names]`"""
+    flags = (['--all'] if all_ else []) + ([('--status' if long else '-s')] if status else []) + (['--deps'] if deps else [])
+    flags += [] if sort_name else ['--sort', 'definition']
+    return st('list', names, flags, sub=all_, status=status, deps=deps, sort_name=sort_name, **kw)
+
+
+def st_info(names, hide=False, **kw):
+    """`doit info [--no-status] name`"""
+    return st('info', names, ['--no-status'] if hide else [], hide=hide, **kw)
+
+
+def st_clean(names, flags=(), **kw):
+    """`doit clean [-n|--dry-run] [-c] names` (never --forget; the tasks of this check have no clean actions)"""
+    return st('clean', names, flags, **kw)
+
+
+def inspect_fixed_specs():
+    """run; ignore T; <T made not up-to-date>; <commands that only look, under the configured checker or their own>; run; ...;
+    forget T; run -- on the table of `base`, every backend.  T = b (a, g:y and so g depend on it), the group g, the setup-task s"""
+    out = []
+    stale = [('write', 0, 2), ('write', 1, 0), ('write', 3, 1)]        # the file_dep of b (0, 1), g:x (1) and s (3) change: not up-to-date
+    for b in BACKENDS:
+        for T_, dep in (('b', 'a'), ('g', 'g:x'), ('s', 'c')):
+            out += [
+                # the listing is given another checker than the one that wrote the records; the runs use the configured one
+                base(None, [st('ignore', [T_]), st_list(mut=stale, ck='timestamp'), st('none'), st('forget', [T_])], b),
+                # ... and the other way round: the configuration changes, then list / info under the changed configuration
+                base(None, [st('ignore', [T_]), st_list(all_=True, deps=True, long=True, mut=stale + [('checker', 'timestamp')]),
+                            st_info([T_]), st('forget', [T_])], b),
+                # only the named task / its dependent is looked at; info; the run too has its own checker
+                base(None, [st('ignore', [T_]), st_list([T_], all_=True, sort_name=False, mut=stale, ck='timestamp', run=R(ck='timestamp')),
+                            st_info([T_], ck='timestamp', run=R(always=True)), st_info([dep], ck='timestamp'), st('forget', [T_])], b),
+            ]
+        out += [
+            # list without --status, info --no-status and clean never ask the dependency manager
+            base(None, [st('ignore', ['b']), st_list(status=False, mut=stale, ck='timestamp'), st_info(['b'], hide=True, ck='timestamp'),
+                        st_clean(['b', 'a'], ['-n'], ck='timestamp'), st_clean(['g'], ['-c'], ck='timestamp'), st('forget', ['b'])], b),
+            # T was never executed with success: its record holds only the mark (no checker recorded)
+            base(None, [st('ignore', ['b']), st_list(ck='timestamp'), st_info(['b'], ck='timestamp'), st('forget', ['b'])], b, fail=['b']),
+            # reset-dep and a listing in a row, both under the checker that wrote the records, then under the other one
+            base(None, [st('ignore', ['b']), st('reset-dep', ['b'], mut=stale), st_list(ck='md5'), st_list(ck='timestamp', run=R(always=True)),
+                        st('forget', ['b'])], b),
+            # arguments that are refused: nothing happens
+            base(None, [st('ignore', ['g']), st_list(['zz'], ck='timestamp'), st_info(['zz'], ck='timestamp'), st_info([], ck='timestamp'),
+                        st_info(['g', 'b'], ck='timestamp'), st('forget', ['g'], ['-s'], sub=True)], b),
+        ]
+    return out
+
+
+def gen_inspect_step(rng, cmd, names, mut, ignored, ck):
+    pool = list(ignored) if ignored and rng.random() < 0.6 else list(names)
+    ckov = None
+    if rng.random() < 0.55:
+        ckov = other_ck(ck) if rng.random() < 0.75 else ck
+    kw = dict(mut=mut, follow=rng.random() < 0.9, run=gen_run(rng, names), ck=ckov)
+    if cmd == 'list':
+        r = rng.random()
+        sel = []
+        if 0.4 <= r < 0.9:
+            sel = rng.sample(pool, min(len(pool), rng.choice([1, 1, 2])))
+        elif r >= 0.9:
+            sel = rng.sample(pool, 1) + [rng.choice(list(UNKNOWN))]
+            rng.shuffle(sel)
+        return st_list(sel, status=rng.random() < 0.85, all_=rng.random() < 0.45, deps=rng.random() < 0.25, sort_name=rng.random() < 0.7,
+                       long=rng.random() < 0.5, **kw)
+    if cmd == 'info':
+        r = rng.random()
+        if r < 0.85:
+            sel = rng.sample(pool, 1)
+        elif r < 0.9:
+            sel = [rng.choice(list(UNKNOWN))]
+        elif r < 0.95:
+            sel = []
+        else:
+            sel = rng.sample(names, min(2, len(names)))
+        return st_info(sel, hide=rng.random() < 0.15, **kw)
+    return st_clean(rng.sample(pool, min(len(pool), rng.choice([1, 1, 2]))), rng.choice([[], ['-n'], ['--dry-run'], ['-c'], ['-n', '-c']]), **kw)
+
+
+def gen_inspect_steps(rng, spec, names, real):
+    """histories around `ignore`: ignore; commands that only look (list / info / clean, each with options and possibly its own
+    --check_file_uptodate) mixed with reset-dep / nothing; forget -- every step followed by a run (which may have its own checker too)"""
+    pat = rng.choice([['ignore', 'I', 'forget'], ['ignore', 'I', 'none', 'forget'], ['ignore', 'I', 'I', 'forget'],
+                      ['ignore', 'reset-dep', 'I', 'none'], ['I', 'ignore', 'I', 'none'], ['ignore', 'I', 'forget', 'I'],
+                      ['ignore', 'ignore', 'I', 'I'], ['ignore', 'I', 'reset-dep', 'I']])
+    ck = spec['pre']['ck']
+    steps, ignored = [], []
+    for cmd in pat:
+        if cmd == 'I':
+            cmd = rng.choice(['list', 'list', 'list', 'info', 'info', 'clean'])
+        mut = []
+        for _ in range(rng.choice([0, 1, 1, 2])):
+            r = rng.random()
+            if r < 0.45:
+                mut.append(('write', rng.randrange(NDEP), rng.randrange(4)))
+            elif r < 0.55:
+                mut.append(('touch', rng.randrange(NDEP)))
+            elif r < 0.65:
+                mut.append(('delete', rng.randrange(NDEP + NTGT)))
+            elif r < 0.75 and real:
+                mut.append(('setdef', rng.choice(real), 'uptodate', [list(u) for u in rng.choice(UTD_CHOICES)]))
+            else:
+                ck = other_ck(ck)
+                mut.append(('checker', ck))
+        if cmd in INSPECT:
+            step = gen_inspect_step(rng, cmd, names, mut, ignored, ck)
+        elif cmd == 'ignore' and rng.random() < 0.85:
+            step = st('ignore', rng.sample(names, min(len(names), rng.choice([1, 1, 2]))), mut=mut, run=gen_run(rng, names))
+        elif cmd == 'forget' and ignored and rng.random() < 0.6:
+            step = st('forget', rng.sample(ignored, 1), mut=mut, run=gen_run(rng, names))
+        else:
+            step = gen_step(rng, cmd, names, mut, prev=steps)
+            step['ck'] = other_ck(ck) if cmd == 'reset-dep' and rng.random() < 0.3 else None
+        if cmd == 'ignore' and all(n in names for n in step['margs']['names']):
+            ignored = ignored + [n for n in step['margs']['names'] if n not in ignored]
+        if rng.random() < 0.3:
+            step['run']['ck'] = rng.choice(['md5', 'timestamp'])
+        steps.append(step)
+    return steps
+
+
 def fixed_specs():
     """the argument forms of the statement on one small table: a -> b (task_dep), c -> s (setup), g = {g:x, g:y -> b}, d (no deps)"""
-    def base(default, steps, backend='json', stale=True, fail=(), csetup=('s',)):
-        return dict(backend=backend, stale=stale, cli_db=False, default=default,
-                    creators=[dict(kind='plain', name='a', task=T(task_dep=['b'], file_dep=[0], ret=('dict', 0, 3))),
-                              dict(kind='group', name='g', subs=[dict(name='x', task=T(file_dep=[1], uptodate=[['run_once']])),
-                                                                  dict(name='y', task=T(task_dep=['b'], targets=[4]))]),
-                              dict(kind='plain', name='c', task=T(setup=list(csetup), file_dep=[2], ret=('str', 1))),
-                              dict(kind='plain', name='b', task=T(file_dep=[0, 1], uptodate=[['config', 1]])),
-                              dict(kind='plain', name='s', task=T(file_dep=[3], uptodate=[['bool', True]])),
-                              dict(kind='plain', name='d', task=T())],
-                    files={'0': 0, '1': 1, '2': 2, '3': 3, '4': 0}, pre=dict(fail=list(fail), ck='md5'), steps=steps)
-
-    def st(cmd, names=(), flags=(), mut=(), follow=True, run=None, **kw):
-        a = dict(names=list(names), sub=False, dd=False, all=False)
-        a.update(kw)
-        return dict(mut=[list(m) for m in mut], cmd=cmd, flags=list(flags), margs=a, follow=follow, run=run or R())
     out = []
     for b in BACKENDS:
         out += [
@@ -1171,6 +1439,11 @@ def key_of(s):
             s['default'] is None, s['ntasks'])
 
 
+def inspect_key(s):
+    return ('inspect', s['cmd'], tuple(a if a.startswith('-') else ('T' if ':' not in a else 'S') for a in s['args']), s['code'], s['backend'],
+            s['ck'] is not None, bool(s['held_foreign']), len(s['changed']))
+
+
 def run(ctx):
     out = Outcome()
     out.rule = ('33 fixed command sequences x 3 backends on the table of the statement (every argument form of the three commands; the '
@@ -1182,12 +1455,25 @@ def run(ctx):
                 'options from the PRNG (named selection, --continue or not, --always-execute or not, -n 2 -P thread).  one evaluation = one '
                 'step.  non-trivial = distinct (command, argument form, outcome, number of records changed, default_tasks '
                 'configured?, table size) where the command changed the DB or was refused, on a table of >= 3 tasks; plus distinct (options '
-                'of the following run, some task marked ignored?, some task reported ignored?, some task executed?, exit code) on such a table')
+                'of the following run, some task marked ignored?, some task reported ignored?, some task executed?, exit code) on such a table.  '
+                'ADDED (round F): the commands that only look -- list [--all] [-s] [--deps] [--sort definition] [names], info [--no-status] '
+                'name, clean [-n] [-c] names -- as steps of the histories, between `ignore` and the later runs, every command (the three '
+                'commands of the statement too) and every run possibly with its own --check_file_uptodate md5|timestamp on the command line: '
+                '13 fixed histories x 3 backends (run; ignore T; T made not up-to-date; list / info / clean under the checker that wrote the '
+                'records or the other one, from the configuration or the command line; run; forget T; run; T = plain task with dependents, '
+                'group, setup-task; record holding only the mark; refused arguments) + random histories of 3-4 steps.  non-trivial for these '
+                '= distinct (command, argument form, outcome, backend, own checker option?, an ignored task with a record of another '
+                'checker than the command\'s?, records changed) with a task ignored and not forgotten, on a table of >= 3 tasks')
     cases = []
     specs = fixed_specs()
     n = ctx.n(70, 900)
     for i in range(n):
         specs.append(gen_spec(ctx.rng, kind=[None, None, 'forget', 'reset-dep', 'ignore-until-forget'][i % 5]))
+    # the commands that only look (list / info / clean) between `ignore` and the later runs, each command and each run possibly
+    # with its own --check_file_uptodate: generated AFTER the cases above (their PRNG stream is unchanged)
+    specs += inspect_fixed_specs()
+    for i in range(ctx.n(40, 700)):
+        specs.append(gen_spec(ctx.rng, kind='inspect'))
     for idx, spec in enumerate(specs):
         try:
             summ = run_case(ctx, out, spec, idx, cases)
@@ -1204,6 +1490,19 @@ def run(ctx):
                 out.count(k)
             if s['held']:
                 out.count('step-with-task-ignored-and-not-forgotten')
+            if s['ck']:
+                out.count('command-with-own-checker-option')
+            if s['cmd'] in INSPECT:
+                out.count('inspection-command')
+                if s['held']:
+                    out.count('inspection-with-task-ignored-and-not-forgotten')
+                if s['held_foreign']:
+                    out.count('inspection-under-another-checker-than-the-record-of-an-ignored-task')
+                    out.count('inspection-under-another-checker-than-the-record-of-an-ignored-task-' + s['backend'])
+                if s['held'] and s['ntasks'] >= 3:
+                    out.nontrivial.add(inspect_key(s))
+            if s['follow'] is not None and s['run']['ck']:
+                out.count('run-with-own-checker-option')
             if s['follow'] is not None:
                 out.count('with-following-run')
                 ro = s['run']
@@ -1233,6 +1532,9 @@ def run(ctx):
         'a thread-parallel run (-n 2 -P thread) is compared with the serial model run: per-task outcome and exit code under --continue are schedule independent (C08)',
         'a run without --continue that ends with a failure: only soundness of what was reported is compared (the stopping point depends on set iteration order)',
         'callables in uptodate are oracles; delayed tasks, wild-card names and task options on the command line are outside this property',
+        'list / info: the model is Model/Introspect.v (C20) seen as a history step (Model/Inspect.v); what is compared here is the outcome, the status letter per '
+        'task line, the DB on disk afterwards (list / info never close the dependency manager: a record dropped in memory is gone from a dbm file only) '
+        'and the run that follows; the wording of the other lines is C20\'s.  clean: never --forget, tasks without clean actions; no task name starts with _',
     ]
     out.extra['trusted_base'] = ['harness/c13.py: namespace builder, recording reporter, parsing of the command output, DB dump, encoders']
     return out
@@ -1245,8 +1547,8 @@ def replay(ctx, payload):
     cases = []
     summ = run_case(ctx, out, spec, 0, cases)
     for s in summ:
-        print(s['cmd'], s['args'], 'outcome', s['code'], 'changed', s['changed'], 'ignore-marked', s['marked'], 'ignored-not-forgotten', s['held'],
-              'next run', s['run_args'], '->', s['follow'], 'exit', s['rc'])
+        print(s['cmd'], s['args'], '(own checker: %s, configured: %s)' % (s['ck'], s['config_ck']), 'wrote', s['lines'], 'outcome', s['code'], 'changed', s['changed'], 'ignore-marked', s['marked'], 'ignored-not-forgotten', s['held'],
+              'next run', s['run_args'], '(own checker: %s)' % s['run']['ck'], '->', s['follow'], 'exit', s['rc'])
     for v in out.violations:
         print('VIOLATION-REPLAY', v['shape'], v['what'])
     bad = common.compare_with_model(ctx, PRE, cases, tag='c13r')
